@@ -723,7 +723,13 @@ def octal_to_dec_concrete_octal(
     for idx, digit in enumerate(reversed(octal_str)):
         decimal_number += (8**idx) * int(digit)
 
-    return Some(SemPredEvalResult({decimal: decimal_parser(str(decimal_number))}))
+    try:
+        decimal_tree = decimal_parser(str(decimal_number))
+    except SyntaxError:
+        # The decimal nonterminal does not derive this number.
+        return Some(SemPredEvalResult(False))
+
+    return Some(SemPredEvalResult({decimal: decimal_tree}))
 
 
 def octal_to_dec_concrete_decimal(
@@ -746,7 +752,13 @@ def octal_to_dec_concrete_decimal(
     decimal_number = int(str(decimal))
     octal_str = oct(decimal_number)[2:]
 
-    return Some(SemPredEvalResult({octal: octal_parser(octal_str)}))
+    try:
+        octal_tree = octal_parser(octal_str)
+    except SyntaxError:
+        # The octal nonterminal does not derive this number.
+        return Some(SemPredEvalResult(False))
+
+    return Some(SemPredEvalResult({octal: octal_tree}))
 
 
 def octal_to_dec_both_trees(
